@@ -228,6 +228,14 @@ impl Insert {
                 MAX_NUM_TABLE_ROWS
             );
         }
+        // Make sure that the string pool has room for the new strings.
+        string_pool.check_capacity(
+            self.new_rows
+                .iter()
+                .flat_map(|values| values.iter())
+                .filter_map(Value::string_to_intern)
+                .map(|string| (None, Some(string))),
+        )?;
         // Insert the new rows into the table.
         for values in self.new_rows.into_iter() {
             let keys: Vec<Value> = key_indices
@@ -775,6 +783,33 @@ impl Update {
                 keys_set.insert(keys);
             }
         }
+        // Make sure that the string pool has room for the new strings.
+        string_pool.check_capacity(
+            rows.iter()
+                .zip(should_update.iter())
+                .filter(|&(_, &update)| update)
+                .flat_map(|(value_refs, _)| {
+                    let update_indices = &update_indices;
+                    update_indices
+                        .iter()
+                        .zip(self.updates.iter())
+                        .enumerate()
+                        .map(move |(pos, (&index, (_, value)))| {
+                            // (If a column is assigned more than once, only
+                            // the first assignment releases the old value.)
+                            let old_ref = match value_refs[index] {
+                                ValueRef::Str(string_ref)
+                                    if !update_indices[..pos]
+                                        .contains(&index) =>
+                                {
+                                    Some(string_ref)
+                                }
+                                _ => None,
+                            };
+                            (old_ref, value.string_to_intern())
+                        })
+                }),
+        )?;
         // Update the rows.
         for (value_refs, &update) in rows.iter_mut().zip(should_update.iter())
         {
